@@ -36,6 +36,9 @@ CHECKS = {
  'C08': ('fuzz-style property testing in-process (catch_unwind, overflow checks, PEG call-budget meter, per-call watchdog) over generated valid / mutated / arbitrary inputs and extreme integers, plus scaling probes in isolated child processes; known findings K6/K7 attributed by input class + failure kind',
          'Every generated input runs through all seven public entry points; a panic, an abort, a PEG call budget overrun, a call that does not return within 20 s, disagreement between entry points about Ok/Err, or an Err from evaluating a successfully parsed query is a violation. Stack exhaustion and parse-work blow-up are probed in child processes at sizes 8..65536. Exploration only; absence of hangs cannot be established by this technique and is approximated by the budgets stated in the evidence.',
          'Trusted: pest::set_call_limit as a deterministic parse-work meter; 8 MiB stack as the reference environment for the probes; bulk inputs have nesting <= 40.', 'DESIGN.md section 4 C08'),
+ 'C09': ('model-based property testing: every node location of generated documents (pointer identity for reads, whole-document model comparison for writes), derived non-existent locations, and generated write histories against an in-memory model; known finding K3 attributed by model',
+         'For every node of documents with JSON-Pointer-hostile and escape-needing member names, reference(normalized path) must return that node by address and a write through reference_mut must equal the model (replace the subtree, nothing else); locations that do not exist (index = len, numeric name on an array, index on an object, a/b and ~1 confusions, steps below scalars) must give None and leave the document unchanged; histories of up to 6 writes through the paths of one query are replayed against the model step by step. Exploration only.',
+         'Trusted: normalized_path(), the replacement model, pointer identity.', 'DESIGN.md section 4 C09'),
 }
 NOT_YET = 'check under construction in this session (designed in DESIGN.md section 4); not yet registered'
 
